@@ -77,7 +77,8 @@ func buildReq(q RawReq, n int) *Rpc {
 	hdr := func(method string) *goatorepo.RequestHeader {
 		return &goatorepo.RequestHeader{Method: method, Source: "raw", Destination: ServerID}
 	}
-	badMD := []*goatorepo.KeyValue{{Key: "bad-bin", Value: "!!!not base64!!!"}}
+	// (metadata keys are case-insensitive: a binary key is one in any spelling)
+	badMD := []*goatorepo.KeyValue{{Key: []string{"bad-bin", "Bad-bin", "bad-Bin", "BAD-BIN"}[(q.ID+n)%4], Value: "!!!not base64!!!"}}
 	payload := []byte(fmt.Sprintf("hostile-%d-%d", q.ID, n))
 	r := &Rpc{Id: id}
 	switch q.Shape {
